@@ -58,7 +58,8 @@ def run(ctx):
         for t in range(ntrees):
             r = ctx.rng.fork()
             sizes = r.choice([[0, 1, 2, 3, 5, 7, 10, 100, 1023, 1025], [1, 2], [10, 11, 13, 4096],
-                              [2 ** 31 + 1, 2 ** 33 + 5, 7, 1]])
+                              [2 ** 31 + 1, 2 ** 33 + 5, 7, 1],
+                              [3000000001, 3000000002, 3000000003, 3000000006], [400000001, 400000003, 400000002]])
             ents = fstree.gen_tree(r, max_entries=r.choice([1, 2, 3, 8, 25]), kinds="fdl", sizes=sizes)
             for e in ents:
                 if e["kind"] == "f" and e["size"] > 10 ** 6:
